@@ -1,37 +1,16 @@
-"""Registry of claimed checks: the single source MANIFEST.json is generated from (bin/gen-manifest)."""
-
-ASSUME_TLC = "TLC (tla2tools 1.8.0) and the CommunityModules Json module are trusted"
-
-CHECKS = {
-    "C08": dict(
-        level="model_checking",
-        engine="Balance",
-        technique="TLA+ chain machine (spec/Balance.tla) model-checked by TLC for oracle satisfiability; TLC-generated "
-                  "rebalance chains replayed on the real strategies; TLC evaluates ValidPlan on every real plan (spec/BalanceTrace.tla)",
-        text="TLC enumerates every group shape with <=3 members, 2 topics, <=3 partitions and every 2-step rebalance chain "
-             "(join/leave/subscription change/partition-count change/topic deletion, leavers rejoining with stale user data) and "
-             "simulates longer chains over 4 members x 3 topics x <=5 partitions; each chain is executed on the real range, "
-             "round-robin and sticky Plan with the real AssignmentData user data fed back; TLC then evaluates the validity "
-             "clauses on every plan the code returned. The oracle is itself model-checked to be satisfiable on the enumerated space.",
-        note="bounded enumeration; inputs respect what consumerGroup.balance supplies (topics = existing subscribed topics, "
-             "sorted partition lists, non-empty topic map); harness + TLC trusted",
-        design_ref="6/C08",
-    ),
-    "C13": dict(
-        level="model_checking",
-        engine="Balance",
-        technique="same machinery as C08 with the balance/stickiness predicates of spec/BalanceOracle.tla; satisfiability of "
-                  "balance+stickiness model-checked by TLC (Balance.stickysat.cfg)",
-        text="Same chains as C08; TLC evaluates RangeShape, RoundRobinFair, StickyBalanced, FixedPoint, KeepOnLeave, "
-             "NoShuffleOnJoin and NoPairwiseSwap on the plans of the real strategies, each only under its stated premise. "
-             "TLC also checks, for every balanced previous plan of the small space, that a next plan satisfying balance and the "
-             "stickiness clause exists, so a reported violation can never be an over-constrained oracle.",
-        note="bounded enumeration as C08; stickiness premises: identical subscriptions where the statement says so, previous "
-             "plan produced by the strategy itself and fed back with an increasing generation",
-        design_ref="6/C13",
-    ),
-}
-
-NOT_YET = "check not built yet (work in progress in this session); see DESIGN.md section 6 for the planned machinery"
+"""Registry of claimed checks: every checks/cNN.py that defines META is a claimed check;
+MANIFEST.json is generated from these (bin/gen-manifest)."""
+import importlib
+import os
 
 ALL = ["C%02d" % i for i in range(1, 21)]
+NOT_YET = "check not built yet (work in progress); see DESIGN.md section 6 for the planned machinery"
+# properties deliberately not claimed, with the reason
+NA = {}
+
+CHECKS = {}
+for _p in ALL:
+    if os.path.exists(os.path.join(os.path.dirname(os.path.abspath(__file__)), _p.lower() + ".py")):
+        _m = importlib.import_module(_p.lower())
+        if hasattr(_m, "META"):
+            CHECKS[_p] = _m.META
